@@ -490,7 +490,54 @@ Section World.
 
   (* manifestation of the array a file evaluated to: elements in order; an
      element is evaluated at most once (its thunk is memoised: EDone), then its
-     value is manifested, descending into imported files *)
+     value is manifested, descending into imported files.  [k] counts the
+     elements still to visit, [j] is the element index; the element list is
+     re-read from the session at every step (a nested manifestation may have
+     evaluated elements of this very file when imports are cyclic) *)
+  Fixpoint manifest_items (forcef : N -> session -> session * res unit)
+           (manifestf : N -> session -> session * res value)
+           (sid nstrict : N) (k : nat) (j : N) (acc : list value) (st : session)
+    : session * res value :=
+    match k with
+    | O => (st, Ok (VArr (rev acc)))
+    | S k' =>
+        match items_of st sid with
+        | None => (st, Panic "session.rs:manifest:file value lost")
+        | Some (_, items) =>
+            match nthN items j with
+            | None => (st, Ok (VArr (rev acc)))
+            | Some it =>
+                let r :=
+                  match it with
+                  | EDone v => (st, Ok v)
+                  | ELazy e =>
+                      match eval_expr forcef sid (nstrict + j) e st with
+                      | (st', Ok v) =>
+                          (match items_of st' sid with
+                           | Some (_, items') => with_thunk st' sid (TDone nstrict (setN items' j (EDone v)))
+                           | None => st'
+                           end, Ok v)
+                      | other => other
+                      end
+                  end in
+                match r with
+                | (st1, Ok (EvStr s)) => manifest_items forcef manifestf sid nstrict k' (j + 1) (VStr s :: acc) st1
+                | (st1, Ok (EvBytes b)) => manifest_items forcef manifestf sid nstrict k' (j + 1) (VBytes b :: acc) st1
+                | (st1, Ok (EvFile sid')) =>
+                    match manifestf sid' st1 with
+                    | (st2, Ok v) => manifest_items forcef manifestf sid nstrict k' (j + 1) (v :: acc) st2
+                    | (st2, Err x) => (st2, Err x)
+                    | (st2, Panic s) => (st2, Panic s)
+                    | (st2, OutOfFuel) => (st2, OutOfFuel)
+                    end
+                | (st1, Err x) => (st1, Err x)
+                | (st1, Panic s) => (st1, Panic s)
+                | (st1, OutOfFuel) => (st1, OutOfFuel)
+                end
+            end
+        end
+    end.
+
   Fixpoint manifest (fuel : nat) (sid : N) (st : session) : session * res value :=
     match fuel with
     | O => (st, OutOfFuel)
@@ -498,46 +545,7 @@ Section World.
         match items_of st sid with
         | None => (st, Panic "session.rs:manifest:file value not computed")
         | Some (nstrict, items0) =>
-            (fix go (k : nat) (j : N) (acc : list value) (st : session) : session * res value :=
-               match k with
-               | O => (st, Ok (VArr (rev acc)))
-               | S k' =>
-                   match items_of st sid with
-                   | None => (st, Panic "session.rs:manifest:file value lost")
-                   | Some (_, items) =>
-                       match nthN items j with
-                       | None => (st, Ok (VArr (rev acc)))
-                       | Some it =>
-                           let r :=
-                             match it with
-                             | EDone v => (st, Ok v)
-                             | ELazy e =>
-                                 match eval_expr (force f) sid (nstrict + j) e st with
-                                 | (st', Ok v) =>
-                                     (match items_of st' sid with
-                                      | Some (_, items') => with_thunk st' sid (TDone nstrict (setN items' j (EDone v)))
-                                      | None => st'
-                                      end, Ok v)
-                                 | other => other
-                                 end
-                             end in
-                           match r with
-                           | (st1, Ok (EvStr s)) => go k' (j + 1) (VStr s :: acc) st1
-                           | (st1, Ok (EvBytes b)) => go k' (j + 1) (VBytes b :: acc) st1
-                           | (st1, Ok (EvFile sid')) =>
-                               match manifest f sid' st1 with
-                               | (st2, Ok v) => go k' (j + 1) (v :: acc) st2
-                               | (st2, Err x) => (st2, Err x)
-                               | (st2, Panic s) => (st2, Panic s)
-                               | (st2, OutOfFuel) => (st2, OutOfFuel)
-                               end
-                           | (st1, Err x) => (st1, Err x)
-                           | (st1, Panic s) => (st1, Panic s)
-                           | (st1, OutOfFuel) => (st1, OutOfFuel)
-                           end
-                       end
-                   end
-               end) (length items0) 0 [] st
+            manifest_items (force f) (manifest f) sid nstrict (length items0) 0 [] st
         end
     end.
 
